@@ -165,6 +165,9 @@ class Prov:
                 # a promoted constant: name it after the named constants its body refers to
                 path = "&" + "+".join(op["refs"])
             if op.get("mem") is not None:
+                if op.get("ptrs"):
+                    # pointers stored inside the constant's memory (e.g. a promoted `&&u8`): (offset, pointee bytes)
+                    return ("const", op.get("value"), path, op.get("ty"), tuple(op["mem"]), tuple((e["off"], tuple(e["mem"])) for e in op["ptrs"]))
                 return ("const", op.get("value"), path, op.get("ty"), tuple(op["mem"]))
             return ("const", op.get("value"), path, op.get("ty"))
         if k in ("copy", "move"):
